@@ -31,9 +31,9 @@ var (
 )
 
 type c07Outcome struct {
-	kind  int // 0 frame, 1 error(too big), 2 end (need more)
-	raw   []byte
-	plen  uint64
+	kind int // 0 frame, 1 error(too big), 2 end (need more)
+	raw  []byte
+	plen uint64
 }
 
 // c07Reference decodes stream the way RFC 6455 section 5.2 lays frames out.
